@@ -177,18 +177,24 @@ Theorem T19_7_overused_index_free : forall bl i, pick_index bl = Some i -> ~ In 
 Proof. exact pick_index_free. Qed.
 Print Assumptions T19_7_overused_index_free.
 
-Theorem R19_7_overused_names_refuted : exists bl k n, In n (overused_names bl k) /\ In n bl.
-Proof. exact overused_names_refuted. Qed.
-Print Assumptions R19_7_overused_names_refuted.
+Theorem T19_7_overused_names_fresh : forall bl k n, In n (overused_names bl k) -> ~ In n bl.
+Proof. exact overused_names_fresh. Qed.
+Print Assumptions T19_7_overused_names_fresh.
 
-Theorem T19_7_overused_names_partial : forall bl n, In n (overused_names bl 1) -> ~ In n bl.
-Proof. exact overused_names_partial. Qed.
-Print Assumptions T19_7_overused_names_partial.
+Theorem T19_7_overused_names_distinct : forall bl k, NoDup (overused_names bl k).
+Proof. exact overused_names_NoDup. Qed.
+Print Assumptions T19_7_overused_names_distinct.
 
-Theorem R19_7_var_names_refuted : exists used k n, In n (var_names used k) /\ In n used.
-Proof. exact var_names_refuted. Qed.
-Print Assumptions R19_7_var_names_refuted.
+Theorem T19_7_overused_string_name_free :
+  forall bl c n, overused_string_name bl c = Some n -> n = c /\ ~ In n bl /\ is_ident n = true.
+Proof. exact overused_string_name_free. Qed.
+Print Assumptions T19_7_overused_string_name_free.
 
-Theorem R19_7_keys_items_refuted : exists used value target, In (keys_items_names used value target) used.
-Proof. exact keys_items_refuted. Qed.
-Print Assumptions R19_7_keys_items_refuted.
+Theorem T19_7_var_names_fresh : forall used k n, In n (var_names used k) -> ~ In n used.
+Proof. exact var_names_fresh. Qed.
+Print Assumptions T19_7_var_names_fresh.
+
+Theorem T19_7_keys_items_fresh :
+  forall used value target n, keys_items_decision used value target = Some n -> ~ In n used.
+Proof. exact keys_items_fresh. Qed.
+Print Assumptions T19_7_keys_items_fresh.
